@@ -49,7 +49,8 @@ def caller(tag, label, var):
 
 
 FILES = {
-    'a': 'repo/.github/workflows/a.yml', 'a2': 'repo/.github/workflows/a2.yml', 'callee': 'repo/.github/workflows/callee.yml',
+    # a2 lives in a nested directory that has .github/workflows but no .git: it belongs to `repo`
+    'a': 'repo/.github/workflows/a.yml', 'a2': 'repo/examples/demo/.github/workflows/a2.yml', 'callee': 'repo/.github/workflows/callee.yml',
     'b': 'repo-b/.github/workflows/b.yml', 'out': 'out.yml'}
 
 
@@ -89,6 +90,10 @@ def run(ck, tier):
     for i, o in enumerate(orders, 1):
         cases.append({'id': i, 'name': 'args:' + ','.join(o), 'files': files, 'dirs': dirs, 'args': [FILES[x] for x in o],
                       'reps': 3 if tier == 'quick' else 9, 'gomaxprocs': [1, 2, 16], 'cwd': '', 'single': True})
+    # histories: one Linter instance used for several LintFiles calls (every 7th sequence)
+    for o in orders[::7]:
+        cases.append({'id': len(cases) + 1, 'name': 'reused-linter:args:' + ','.join(o), 'files': files, 'dirs': dirs,
+                      'args': [FILES[x] for x in o], 'reps': 3, 'gomaxprocs': [2, 16], 'cwd': '', 'single': True, 'reuse': True})
     vplib.write_jsonl(os.path.join(sd, 'cases.jsonl'), cases)
     vplib.run_harness(['det-run', os.path.join(sd, 'cases.jsonl'), os.path.join(sd, 'out.jsonl')], timeout=3000)
     res = vplib.read_jsonl(os.path.join(sd, 'out.jsonl'))
@@ -151,7 +156,8 @@ def run(ck, tier):
     for i in range(n):
         extra.append({'path': 'repo/.github/workflows/s%02d.yml' % i, 'content': caller('s%02d' % i, 'lab-a', 'NOPE%d' % i)})
     case = {'id': 1, 'name': 'stress', 'files': stress_files + extra, 'dirs': dirs,
-            'args': [e['path'] for e in extra] + [FILES['callee'], FILES['b'], FILES['a']], 'reps': 6 if tier == 'quick' else 30,
+            'args': [FILES['callee']] + [e['path'] for e in extra[:len(extra) // 2]] + [FILES['b']] + [e['path'] for e in extra[len(extra) // 2:]] + [FILES['a']],
+            'reps': 6 if tier == 'quick' else 30,
             'gomaxprocs': [16, 4], 'cwd': '', 'single': False}
     vplib.write_jsonl(os.path.join(sd, 'stress.jsonl'), [case])
     p = vplib.run_harness(['det-run', os.path.join(sd, 'stress.jsonl'), os.path.join(sd, 'stress-out.jsonl')], race=True, check=False,
